@@ -119,6 +119,19 @@ fn main() {
     // everything runs on a thread with the stack size spawned threads and async runtime workers get by default
     // (2 MiB), so that unbounded recursion in the library shows up as it would in an application
     let h = std::thread::Builder::new().stack_size(2 << 20).spawn(real_main).expect("spawn");
+    // watchdog: a single poll of a library future that has not returned after PVH_POLL_LIMIT_S seconds (default 30) never
+    // will (the longest legitimate poll of any family takes milliseconds): the process aborts, which the drivers record as
+    // a run ending in an `abort` line (C03+C04), like a stack overflow
+    let limit_ms = std::env::var("PVH_POLL_LIMIT_S").ok().and_then(|s| s.parse::<u64>().ok()).unwrap_or(30) * 1000;
+    while !h.is_finished() {
+        std::thread::sleep(std::time::Duration::from_millis(50));
+        let t = sim::IN_POLL.load(std::sync::atomic::Ordering::SeqCst);
+        if t != 0 && sim::clock_ms() + 1 > t + limit_ms {
+            eprintln!("pvh watchdog: a single poll of a library future has not returned for {} s", limit_ms / 1000);
+            eprintln!("poll-never-returns");
+            std::process::abort();
+        }
+    }
     let code = h.join().unwrap_or(101);
     std::process::exit(code);
 }
@@ -158,6 +171,7 @@ fn real_main() -> i32 {
         "blockcmp" => families::blockcmp(&a),
         "q0wrap" => families::q0wrap(&a),
         "oneread" => families::oneread(&a),
+        "reasons" => families::reasons(&a),
         "chunk" => families::chunk(&a),
         "fuzz" => families::fuzz(&a),
         "endings" => families::endings(&a),
